@@ -100,7 +100,7 @@ def run(ctx):
                 'reversed / mixed evaluations.  TLC (DerivLaws) evaluates every law.  non-trivial = every table; distinct by (family, theta)') % (nchain, npts + 1)
     ctx.assumptions = ['integral form instead of finite differences; the quadrature error bound is self-calibrating',
                        'nothing is checked between grid points / outside [1e-4, 1-1e-4]^2']
-    jobs = [(fam, pos, th, npts) for fam in O.FAMS for pos, th in enumerate(O.chain(fam, nchain), 1)]
+    jobs = [(fam, pos, th, npts) for fam in O.FAMS4 for pos, th in enumerate(O.chain(fam, nchain), 1)]
     with Pool(16) as pool:
         obs = pool.map(O.Safe(_observe), jobs, chunksize=1)
     obs, jobs = O.split_raised(ctx, 'C07', obs, jobs, 'harness.props.C07._observe')
